@@ -4,7 +4,7 @@ import json
 from fractions import Fraction
 import numpy as np
 from harness import votelib as V, gslib
-from harness.common import pmap, lean_query, guard, fr, to_np, optn
+from harness.common import pmap, lean_query, guard, fr, to_np, optn, safe_judge
 from harness.c01 import chunks
 
 LEVEL = "proof"
@@ -91,6 +91,7 @@ def impl_eat(case):
     return {"results": out}
 
 
+@safe_judge
 def judge_rsd(R, it, res, ans):
     P = it["P"]
     n, m = len(P), len(P[0])
@@ -157,6 +158,7 @@ def reconstruct_order(P, alloc):
     return None
 
 
+@safe_judge
 def judge_eat(R, it, res, ans):
     P = it["P"]
     n = len(P)
